@@ -10,6 +10,9 @@
 //	O3  after a 4xx the state digest of ALL collections of ALL users is unchanged
 //	O4  a body the decoder refuses, a missing header, an unknown route must be answered 4xx
 //	O5  every stored vector under an indexed path has the index dimension (seen through search)
+//	O6  a search that is answered 2xx holds, in the part of its query that is executed (the list that goes
+//	    with `_and` / `_or`, the filter of every vector / text leaf, at any depth), no vector whose length
+//	    differs from the dimension of the index it is run on
 //
 // For every request whose body the real decoder accepts (or refuses), the decoded request is
 // rendered into the model's abstract JSON syntax and written as an `h` op line together with the
@@ -587,6 +590,85 @@ func wild(tokens string) bool {
 	return false
 }
 
+// O6. reachMismatch walks a decoded query the way indexManager.Search (shard/index/search.go) dispatches
+// it — by property name, then by the TYPE of the property's index — and returns the first vector leaf whose
+// length differs from the dimension of the index it would be run on ("" if none). What is not executed
+// (the other list of a composite node, option blocks of other types) is not looked at.
+func reachMismatch(schema models.IndexSchema, q models.Query) string {
+	switch q.Property {
+	case "_and", "_or":
+		subs := q.And
+		if q.Property == "_or" {
+			subs = q.Or
+		}
+		for _, s := range subs {
+			if m := reachMismatch(schema, s); m != "" {
+				return m
+			}
+		}
+		return ""
+	case "_id":
+		return ""
+	}
+	sv, ok := schema[q.Property]
+	if !ok {
+		return ""
+	}
+	switch sv.Type {
+	case models.IndexTypeVectorFlat:
+		if q.VectorFlat == nil || sv.VectorFlat == nil {
+			return ""
+		}
+		if q.VectorFlat.Filter != nil {
+			if m := reachMismatch(schema, *q.VectorFlat.Filter); m != "" {
+				return m
+			}
+		}
+		if len(q.VectorFlat.Vector) != int(sv.VectorFlat.VectorSize) {
+			return fmt.Sprintf("vectorFlat:dim=%d:len=%d", sv.VectorFlat.VectorSize, len(q.VectorFlat.Vector))
+		}
+	case models.IndexTypeVectorVamana:
+		if q.VectorVamana == nil || sv.VectorVamana == nil {
+			return ""
+		}
+		if q.VectorVamana.Filter != nil {
+			if m := reachMismatch(schema, *q.VectorVamana.Filter); m != "" {
+				return m
+			}
+		}
+		if len(q.VectorVamana.Vector) != int(sv.VectorVamana.VectorSize) {
+			return fmt.Sprintf("vectorVamana:dim=%d:len=%d", sv.VectorVamana.VectorSize, len(q.VectorVamana.Vector))
+		}
+	case models.IndexTypeText:
+		if q.Text != nil && q.Text.Filter != nil {
+			return reachMismatch(schema, *q.Text.Filter)
+		}
+	}
+	return ""
+}
+
+// checkReach applies O6 to an answered search
+func (rn *runner) checkReach(ep, ctype string, raw []byte, ci *colInfo, st int, key string, req request, hline string) {
+	if ci == nil || st < 200 || st >= 300 {
+		return
+	}
+	m := ""
+	switch ep {
+	case "v2Search":
+		if v, ok, _ := decodeInto[models.SearchRequest](ctype, raw); ok {
+			m = reachMismatch(ci.Schema, v.Query)
+		}
+	case "v1Search":
+		if v, ok, _ := decodeInto[v1.SearchPointsRequest](ctype, raw); ok {
+			// the v1 handler runs a vamana query on "vector"
+			m = reachMismatch(ci.Schema, models.Query{Property: "vector", VectorVamana: &models.SearchVectorVamanaOptions{Vector: v.Vector}})
+		}
+	}
+	if m != "" {
+		rn.fail("vector-dim-reached:"+ep+":"+m, fmt.Sprintf("%s %s was answered %d although the executed part of its query runs a vector of the wrong length on an index (%s): the vector reached the distance computation", req.method, req.path, st, m), rn.replayFor(key, req, hline))
+	}
+}
+
 // ---------------------------------------------------------------------------- main
 
 type epDef struct {
@@ -606,6 +688,7 @@ var endpoints = []epDef{
 }
 
 var planNums = map[string][3]int{}
+var noSweep bool
 
 func main() {
 	seed := flag.Uint64("seed", 1, "PRNG seed")
@@ -614,6 +697,7 @@ func main() {
 	replay := flag.String("replay", "", "replay the http lines of this file against a fresh child server")
 	serve := flag.String("serve", "", "(internal) run the child server with this data directory")
 	deep := flag.Int("deepmp", 0, "also send one MessagePack body nested this deep (0 = off)")
+	flag.BoolVar(&noSweep, "nosweep", false, "skip the deterministic probes (to measure what the random generator finds on its own)")
 	flag.Parse()
 	if *serve != "" {
 		serveMain(*serve)
@@ -875,8 +959,10 @@ func run(seed uint64, n int, dir string, deepmp int) {
 	defer func() { rn.w.c.kill() }()
 
 	t0 := time.Now()
-	rn.pagingProbe()
-	rn.boundarySweep()
+	if !noSweep {
+		rn.pagingProbe()
+		rn.boundarySweep()
+	}
 	for i := 0; i < n && !rn.abort; i++ {
 		func() {
 			defer func() { // a bug of the harness must not end the run silently
@@ -1196,7 +1282,7 @@ func (rn *runner) iteration(i int) {
 	}
 	// ---- body
 	var body *N
-	mutKind, mutPath := "", ""
+	mutKind, mutPath, semKind := "", "", ""
 	jsonOnly, mpOnly := false, false
 	if ep.body {
 		switch ep.name {
@@ -1210,7 +1296,7 @@ func (rn *runner) iteration(i int) {
 			}
 			for k := 0; k < np; k++ {
 				if api == "v1" {
-					pts.A = append(pts.A, g.v1Point(specV1(spec), g.r.Chance(80)))
+					pts.A = append(pts.A, g.v1Point(rn.specV1(spec, ci), g.r.Chance(80)))
 				} else {
 					pts.A = append(pts.A, g.point(spec, g.r.Chance(85)))
 				}
@@ -1224,13 +1310,16 @@ func (rn *runner) iteration(i int) {
 					pts.A[1].Set("_id", pts.A[0].Get("_id").Clone())
 				}
 			}
+			if api == "v2" && g.r.Chance(12) {
+				semKind = g.violatePoints(spec, pts)
+			}
 			body = Obj("points", pts)
 		case "Update":
 			pts := &N{K: 'a'}
 			for k := 0; k < 1+g.r.Intn(2); k++ {
 				var p *N
 				if api == "v1" {
-					p = g.v1Point(specV1(spec), true)
+					p = g.v1Point(rn.specV1(spec, ci), true)
 					if id := rn.someKnown(key); id != "" && g.r.Chance(80) {
 						p.Set("id", Str(id))
 					}
@@ -1248,6 +1337,21 @@ func (rn *runner) iteration(i int) {
 				}
 				pts.A = append(pts.A, p)
 			}
+			if g.r.Chance(15) { // the same id twice in one request, other data
+				var p *N
+				if api == "v1" {
+					p = g.v1Point(rn.specV1(spec, ci), true)
+					p.Set("id", pts.A[0].Get("id").Clone())
+				} else {
+					p = g.point(spec, true)
+					p.Set("_id", pts.A[0].Get("_id").Clone())
+				}
+				pts.A = append(pts.A, p)
+				semKind = "sem:repeated-id"
+			}
+			if api == "v2" && g.r.Chance(12) {
+				semKind = strings.TrimPrefix(semKind+"+"+g.violatePoints(spec, pts), "+")
+			}
 			body = Obj("points", pts)
 		case "Delete":
 			idl := &N{K: 'a'}
@@ -1258,19 +1362,36 @@ func (rn *runner) iteration(i int) {
 					idl.A = append(idl.A, Str(g.uuid()))
 				}
 			}
+			if g.r.Chance(20) { // the same id named more than once in one request
+				idl.A = append(idl.A, idl.A[g.r.Intn(len(idl.A))].Clone())
+				if g.r.Bool() {
+					idl.A = append([]*N{idl.A[len(idl.A)-1].Clone()}, idl.A...)
+				}
+				semKind = "sem:repeated-id"
+			}
 			body = Obj("ids", idl)
 		case "Search":
 			if api == "v1" {
-				body = Obj("vector", g.vec(specV1(spec).props[0].dim), "limit", Int(int64(g.r.Intn(76))))
+				body = Obj("vector", g.vec(rn.specV1(spec, ci).props[0].dim), "limit", Int(int64(g.r.Intn(76))))
 			} else {
 				body = g.search(spec)
+				if g.r.Chance(30) {
+					// one executed leaf broken against the schema / the limits, valid structure around it
+					if k := g.violate(spec); k != "" {
+						semKind = "sem:" + k
+					}
+				}
 				if g.r.Chance(6) { // paging boundaries
 					body.Set("offset", Int(vh.Pick(g.r, []int64{math.MaxInt64, math.MaxInt64 - 99, math.MaxInt64 - 100, 1 << 62, 100, 7})))
 				}
 			}
 		}
-		if g.r.Chance(72) {
+		if semKind != "" {
+			mutKind = semKind
+		}
+		if (semKind == "" && g.r.Chance(72)) || (semKind != "" && g.r.Chance(25)) {
 			mutKind, mutPath, jsonOnly, mpOnly = g.mutate(body)
+			mutKind = strings.TrimPrefix(semKind+"+"+mutKind, "+")
 			if g.r.Chance(15) {
 				k2, p2, j2, m2 := g.mutate(body)
 				mutKind, mutPath = mutKind+"+"+k2, mutPath+"+"+p2
@@ -1386,6 +1507,9 @@ func (rn *runner) iteration(i int) {
 	if st < 0 {
 		return
 	}
+	if ep.name == "Search" {
+		rn.checkReach(epName, sentCtype, raw, ci, st, key, req, hline)
+	}
 	// O4: a body the decoder refuses must not be accepted
 	if ep.body && tokens == "!" && st >= 200 && st < 300 {
 		rn.fail("undecodable-accepted:"+epName, "the harness' run of the same decoder refuses this body, the server answered 2xx", rn.replayFor(key, req, hline))
@@ -1416,6 +1540,17 @@ func isBase(id string) bool {
 		}
 	}
 	return false
+}
+
+// what the v1 API would go by on this collection: the vamana block of IndexSchema["vector"], whatever
+// the declared type of that entry is (a stray block next to another type included)
+func (rn *runner) specV1(s *colSpec, ci *colInfo) *colSpec {
+	if ci != nil {
+		if v, ok := ci.Schema["vector"]; ok && v.VectorVamana != nil && v.VectorVamana.VectorSize >= 1 && v.VectorVamana.VectorSize <= 64 && rn.g.r.Chance(85) {
+			return &colSpec{props: []prop{{path: "vector", kind: "vectorVamana", dim: int(v.VectorVamana.VectorSize), metric: v.VectorVamana.DistanceMetric}}}
+		}
+	}
+	return specV1(s)
 }
 
 func specV1(s *colSpec) *colSpec {
@@ -1510,6 +1645,9 @@ func (rn *runner) createBody(api string) *N {
 			case 2:
 				p.quant = Obj("type", Str("product"), "product", Obj("numCentroids", Int(int64(vh.Pick(g.r, []int{2, 16, 256}))), "numSubVectors", Int(int64(vh.Pick(g.r, []int{2, 3, 4, 8}))), "triggerThreshold", Int(1000)))
 			}
+		}
+		if g.r.Chance(30) {
+			p.stray = g.strayBlocks(p)
 		}
 		cs.props = append(cs.props, p)
 	}
